@@ -243,7 +243,29 @@ def ulp_cases(tier):
                             res.append(R.ob(oid, 'ulp_equal', R.REFUTED, 'differs from "signs equal ? |a.i-b.i| <= n : (+0 and -0)" when %s ; got %s' % (r, tm.show(got, 5)),
                                             where=R.where_of(it, got), kernel=k.source()))
                         else:
-                            res.append(R.ob(oid, 'ulp_equal', R.UNDECIDED, 'got %s' % tm.show(got, 5)))
+                            wit = L.pattern_witness(got, exp)
+                            if wit is None:
+                                # distant pairs (the comparison of a truncated distance only shows beyond 2^31 ULPs)
+                                from laneflow import ceval as CE
+                                ins = sorted({x_ for x_ in tm.walk(got) if x_.op == 'in'} | {x_ for x_ in tm.walk(exp) if x_.op == 'in'}, key=lambda q_: q_.id)
+                                fl = [x_ for x_ in ins if x_.w == ty.elem * 8]
+                                others = [x_ for x_ in ins if x_ not in fl]
+                                if len(fl) == 2:
+                                    for pa, pb in ((1.0, 2.0), (1.0, 1.5), (0.0, 1.0), (1.0, -1.0)):
+                                        env = {fl[0]: CE.f2b(fl[0].w, pa), fl[1]: CE.f2b(fl[1].w, pb)}
+                                        env.update({o_: 0 for o_ in others})
+                                        try:
+                                            va, vb = CE.evaluate(got, env), CE.evaluate(exp, env)
+                                        except CE.NoValue:
+                                            continue
+                                        if va != vb:
+                                            wit = ({'x': pa, 'y': pb, 'maxULPs': 0}, va, vb)
+                                            break
+                            if wit:
+                                res.append(R.ob(oid, 'ulp_equal', R.REFUTED, 'differs from "signs equal ? |a.i-b.i| <= n : (+0 and -0)" at %s: the overload returns %d, the definition %d ; got %s' % (wit[0], wit[1], wit[2], tm.show(got, 5)),
+                                                where=R.where_of(it, got), kernel=k.source()))
+                            else:
+                                res.append(R.ob(oid, 'ulp_equal', R.UNDECIDED, 'got %s' % tm.show(got, 5)))
                     return res
                 cs.append(R.Case(name, [k], judge))
     return cs
